@@ -128,7 +128,7 @@ func damage(r *rand.Rand, pk []*astits.Packet) []*astits.Packet {
 }
 
 func runC07(c *mon.Ctx) {
-	n := c.Pick(400, 3000)
+	n := c.Pick(400, 15000)
 	for i := int64(0); i < n; i++ {
 		if !c.Mine("models", i) {
 			continue
